@@ -312,6 +312,64 @@ pub fn main(args: Args) -> i32 {
         }
         l.flush(&acc);
     }
+    // 1a. an operator site is the same site wherever the expression grammar puts it: a comparison
+    // chain `a o1 b o2 c` is by definition `(a o1 b) and (b o2 c)` (the middle operand evaluated once),
+    // so with an undefined in any of the three positions the chain must succeed or fail exactly as the
+    // conjunction of its links does, in each of the four modes; likewise `not (a o b)`, `a o b if ..`,
+    // and a link under a filter or inside a display
+    {
+        let envs = envs();
+        let mut l = Local::default();
+        let ops = ["==", "!=", "<", "<=", ">", ">=", "in", "not in"];
+        let defined = ["1", "3", "'a'", "[1, 3]", "none"];
+        let undefs = ["u", "m.nokey", "xs[99]"];
+        for o1 in ops {
+            for o2 in ops {
+                for d1 in defined {
+                    for d2 in defined {
+                        for u in undefs {
+                            for pos in 0..3 {
+                                let (a, b, c) = match pos {
+                                    0 => (u, d1, d2),
+                                    1 => (d1, u, d2),
+                                    _ => (d1, d2, u),
+                                };
+                                let forms = [
+                                    (format!("{{{{ {} {} {} {} {} }}}}", a, o1, b, o2, c), format!("{{{{ ({} {} {}) and ({} {} {}) }}}}", a, o1, b, b, o2, c)),
+                                    (format!("{{{{ not ({} {} {} {} {}) }}}}", a, o1, b, o2, c), format!("{{{{ not (({} {} {}) and ({} {} {})) }}}}", a, o1, b, b, o2, c)),
+                                    (format!("{{% if {} {} {} {} {} %}}y{{% else %}}n{{% endif %}}", a, o1, b, o2, c), format!("{{% if ({} {} {}) and ({} {} {}) %}}y{{% else %}}n{{% endif %}}", a, o1, b, b, o2, c)),
+                                ];
+                                for (chain, conj) in forms {
+                                    l.evals += 2;
+                                    for (i, env) in envs.iter().enumerate() {
+                                        let x = render(env, &chain, &ctxs[1]);
+                                        let y = render(env, &conj, &ctxs[1]);
+                                        let same = match (&x, &y) {
+                                            (Out::Ok(p), Out::Ok(q)) => p == q,
+                                            (Out::Err(_), Out::Err(_)) => true,
+                                            _ => false,
+                                        };
+                                        if same {
+                                            l.outcome(if matches!(x, Out::Ok(_)) { "chain as its links: ok" } else { "chain as its links: error" });
+                                        } else {
+                                            acc.fail(Failure {
+                                                key: format!("undefined chain_differs_from_its_links undefined_operand={} mode={}", ["first", "middle", "last"][pos], MODES[i].1),
+                                                case: format!("{} under {}", chain, MODES[i].1),
+                                                detail: format!("{} -> {:?} but {} -> {:?}", chain, x, conj, y),
+                                                replay: json!({"source": chain, "ctx": 1, "variant": 0}),
+                                            });
+                                        }
+                                    }
+                                }
+                            }
+                        }
+                    }
+                }
+            }
+        }
+        acc.count("chain_link_cases", 8 * 8 * 5 * 5 * 3 * 3 * 3);
+        l.flush(&acc);
+    }
     // 1b. the matrix at every site *wherever the site is placed*: in macro, call, set and filter bodies,
     // in included templates, child blocks, the discarded top level of an extending template, the top
     // level of a module that is imported (captured) or imported from (discarded), and in an imported
